@@ -397,8 +397,23 @@ class Scheduler:
             if not pts:
                 return None
             step["p"] = _jp(pts[0])
+            if r.random() < 0.35:
+                step["pform"] = "point2d"  # a caller-owned Point2D that must come back unchanged
             if kind == "contains_point":
                 step["boundary"] = r.random() < 0.5
+            if not exact and not isinstance(v, str) and kernel.is_polygonal(v) and r.random() < 0.2:
+                # a point on an edge up to float rounding: on the boundary for the library
+                ch = r.choice(kernel.chains_of(v))
+                seg = r.choice(ch)
+                t = r.choice([1 / 3, 0.3, 0.7, 2 / 3])
+                q = (float(seg[0][0]) + t * (float(seg[1][0]) - float(seg[0][0])),
+                     float(seg[0][1]) + t * (float(seg[1][1]) - float(seg[0][1])))
+                step["p"] = _jp(q)
+                step["pform"] = "point2d"
+                st = self._oracle_flags(step)
+                st["t2"] = False
+                st["noisy_point"] = True
+                return st
         return self._oracle_flags(step)
 
     def copy_step(self, world):
@@ -861,6 +876,7 @@ class Scheduler:
                     return None
             st = dict(of)
             st.pop("fault", None)
+            st.pop("noisy_point", None)
             if st["op"] in ("in_point", "contains_point"):
                 # the point asked before the transformation may now be too close to the
                 # boundary for a crisp answer: draw a new admissible one
